@@ -1715,6 +1715,12 @@ def key_fam2_failures(ctx, fails, fam_order):
                         c = c.split("/`")[0] if "/`" in c else ""
                         c = "" if c.startswith("`") or "=" in c else c
                     key = "%s%s/%s%s" % (prefix, u["feat"], c + "/" if c else "", sym)
+            if key.startswith(("gnu-ext/", "args/gnu-ext/")) or key.startswith("redefine/no-diagnostic"):
+                # outside what C26 states: GNU extensions are not behaviour of "a conforming C preprocessor", and a missing diagnostic for an
+                # incompatible redefinition is not a difference in the produced token sequence.  Observed, listed in the evidence, not judged.
+                ctx.count("observations_outside_the_property")
+                ctx.collect("observations_outside_the_property_keys", key)
+                continue
             ctx.violation(key, what, witness2(fam, k), order=(fam_order[fam] << 32) | k)
     ctx.note("second_generation_failing_units", len(fails))
     ctx.note("line_family_failures_with_a_failing_subsequence", n_sub)
